@@ -140,7 +140,7 @@ def gen_commands(rng, voc, n, weights, spell_gdb=False):
             cap = None
             if rng.random() < 0.5:
                 cap = rng.choice([0, 1, 1, 2, 3, 5, 10, 1000])
-                text += ' ~ %d' % cap if rng.random() < 0.7 else '~%d' % cap
+                text += ' ~ %d' % cap if (rng.random() < 0.7 or m is None) else '~%d' % cap
             out.append(['cmd', text, {'t': 'list', 'm': m, 'cap': cap}])
         elif k == 'connection':
             word = rng.choice(['connection', 'c', 'conn'])
